@@ -49,9 +49,9 @@ ENGINE_STREAMS = {
     "C01": [("C01", 60, 1500, 40), ("static", 40, 1000, 40)],
     "C02": [("C01", 60, 1500, 40), ("midset", 40, 1000, 40)],
     "C03": [("C01", 60, 1500, 40), ("faults", 40, 1000, 40)],
-    "C05": [("C01", 50, 1500, 40), ("faults", 50, 1500, 40)],
+    "C05": [("C01", 40, 1500, 40), ("faults", 40, 1500, 40), ("reject", 40, 1000, 40)],
     "C06": [("C01", 60, 1500, 40), ("churn", 40, 1000, 60)],
-    "C07": [("faults", 60, 2000, 40), ("binds", 40, 1000, 40)],
+    "C07": [("faults", 60, 2000, 40), ("binds", 30, 1000, 40), ("reject", 30, 1000, 40)],
     "C08": [("binds", 100, 3000, 40)],
     "C10": [("C01", 50, 1500, 40), ("faults", 50, 1500, 40)],
     "C11": [("cutoffs", 100, 3000, 40)],
@@ -67,7 +67,8 @@ def run_engine(ctx, K):
     for (profile, nq, nt, ops) in ENGINE_STREAMS[ctx.pid]:
         n = tier_n(ctx, nq, nt)
         cases = os.path.join(ctx.rundir, "cases_%s_%s.v" % (ctx.pid, profile))
-        rep = K.run_tool(ctx, b, ["-prop", profile, "-claim", ctx.pid, "-n", str(n), "-ops", str(ops), "-coq", cases,
+        extra = ["-include", "C05"] if (ctx.pid == "C07" and profile == "reject") else []
+        rep = K.run_tool(ctx, b, ["-prop", profile, "-claim", ctx.pid] + extra + ["-n", str(n), "-ops", str(ops), "-coq", cases,
                                   "-coqmax", str(tier_n(ctx, nq, 400)), "-seed", str(ctx.seed)], "engine-" + profile)
         if rep:
             ctx.coq_cases += rep.get("coq_cases", 0)
